@@ -95,6 +95,55 @@ func c14Cases() []c14Prog {
 	tree("component-case-args", map[string]string{"index.tw": `@component("c", {x: zz, X: yy})`, "c.tw": "c"}, "index", nil)
 	tree("case-insert-names", map[string]string{"index.tw": "@use(\"lay\")@insert(\"t\", \"1\")\n@insert(\"T\", \"2\")", "lay.tw": `<l>@reserve("a")</l>`}, "index", nil)
 	tree("case-file-names", map[string]string{"a.tw": "{{ 1 + }}", "A.tw": "@if(x", "index.tw": "ok"}, "index", nil)
+	// generated family: every 2- and 3-subset of an adversarial key alphabet, printed / dumped / with all entries failing,
+	// as a literal, as a data map and as component arguments
+	keyAlpha := []string{"a", "b", "B", "ab", "A", "z9", "é"}
+	var subsets [][]string
+	for i := 0; i < len(keyAlpha); i++ {
+		for j := i + 1; j < len(keyAlpha); j++ {
+			subsets = append(subsets, []string{keyAlpha[i], keyAlpha[j]})
+			for k := j + 1; k < len(keyAlpha); k++ {
+				subsets = append(subsets, []string{keyAlpha[j], keyAlpha[k], keyAlpha[i]})
+			}
+		}
+	}
+	for _, ks := range subsets {
+		ks := ks
+		ascii := true
+		for _, k := range ks {
+			ascii = ascii && k != "é"
+		}
+		name := strings.Join(ks, "_")
+		if ascii {
+			var okPairs, badPairs []string
+			for i, k := range ks {
+				okPairs = append(okPairs, fmt.Sprintf("%s: %d", k, i))
+				badPairs = append(badPairs, fmt.Sprintf("%s: undefined%d", k, i))
+			}
+			add("gen-print-"+name, "{{ {"+strings.Join(okPairs, ", ")+"} }}", nil)
+			add("gen-dump-"+name, "@dump({"+strings.Join(okPairs, ", ")+"})", nil)
+			add("gen-failing-"+name, "{{ {"+strings.Join(badPairs, ", ")+"} }}", nil)
+			tree("gen-component-"+name, map[string]string{"index.tw": `@component("c", {` + strings.Join(badPairs, ", ") + `})`, "c.tw": "c"}, "index", nil)
+		}
+		add("gen-data-"+name, "{{ d }}@dump(d)", func() map[string]any {
+			m := map[string]any{}
+			for i, k := range ks {
+				m[k] = i
+			}
+			return map[string]any{"d": m}
+		})
+		add("gen-data-unsupported-"+name, "x", func() map[string]any {
+			m := map[string]any{}
+			for i, k := range ks {
+				if i%2 == 0 {
+					m[k] = make(chan int)
+				} else {
+					m[k] = func() {}
+				}
+			}
+			return m
+		})
+	}
 	tree("many-pages-ok", map[string]string{"a.tw": "A", "b.tw": "B", "c.tw": "C", "index.tw": `@component("a")@component("b")@component("c")`}, "index", nil)
 	tree("page-prints-objects", map[string]string{"index.tw": `@use("lay")@insert("a"){{ {k: 1, j: 2, i: 3} }}@end`, "lay.tw": `[@reserve("a")]`}, "index", objData)
 	return out
